@@ -35,10 +35,16 @@ NORMALIZATION_CODES = (0x61, 0x62, 0x63, 0x64)
 
 
 def walk_doc(doc, path):
+    """`items` judges any sized iterable: below a string an index is a character (below a mapping it is the position of a
+    key: see check_error)"""
     cur = doc
     for k in path:
         if isinstance(cur, Mapping):
             if k not in cur:
+                return MISSING
+            cur = cur[k]
+        elif isinstance(cur, str):
+            if not isinstance(k, int) or isinstance(k, bool) or k >= len(cur) or k < 0:
                 return MISSING
             cur = cur[k]
         elif isinstance(cur, Sequence) and not isinstance(cur, str):
@@ -170,6 +176,11 @@ def check_error(v, e, parent, case, top_doc):
                 return 'required-field error at %r carries the constraint %r' % (e.document_path, e.constraint)
     else:
         got = walk_doc(top_doc, e.document_path)
+        if parent is not None and parent.code == cerr.BAD_ITEMS.code and len(e.document_path) == len(parent.document_path) + 1:
+            cont = walk_doc(top_doc, parent.document_path)
+            k = e.document_path[-1]
+            if isinstance(cont, Mapping) and isinstance(k, int) and 0 <= k < len(cont):
+                got = list(cont)[k]
         if got is MISSING:
             return 'document_path %r does not resolve in the processed document' % (e.document_path,)
         if not same(got, e.value):
